@@ -13,6 +13,16 @@ class BodyError(Exception):
     """Raised by the with-block body when the workload says so."""
 
 
+class FalsyError(Exception):
+    """An exception whose instances are falsy (an empty error collection)."""
+
+    def __bool__(self):
+        return False
+
+    def __len__(self):
+        return 0
+
+
 class BodyAbort(BaseException):
     """A KeyboardInterrupt/SystemExit-like BaseException raised by the body."""
 
@@ -140,6 +150,8 @@ def run_save(case, plan=None, log=None, hooks=None, fs=None, only_warmup=False):
                 elif step[0] == 'raise':
                     if len(step) > 1 and step[1] == 'base':
                         raise BodyAbort('body interrupted')
+                    if len(step) > 1 and step[1] == 'falsy':
+                        raise FalsyError()
                     raise BodyError('body failed')
             r.body_done = True
     except simfs.CrashNow:
@@ -211,7 +223,7 @@ def gen_body(rng, text, blksize, allow_raise=False):
         if rng.random() < 0.7:
             steps.append(['write', chunk(rng.randint(1, 5))])
     if allow_raise and rng.random() < 0.25:
-        steps.insert(rng.randint(0, len(steps)), ['raise'] if rng.random() < 0.7 else ['raise', 'base'])
+        steps.insert(rng.randint(0, len(steps)), rng.choice([['raise'], ['raise'], ['raise'], ['raise', 'base'], ['raise', 'falsy']]))
     return steps
 
 
